@@ -71,6 +71,9 @@ def main(run_one):
     shards = int(sys.argv[4]) if len(sys.argv) > 4 else 1
     import torch
     torch.set_num_threads(1)
+    if os.environ.get("VERIF_MUTANT"):
+        from .. import mutants
+        mutants.apply(os.environ["VERIF_MUTANT"])
     scen = json.load(open(sf))
     shards = max(1, min(shards, len(scen)))
     if shards == 1:
